@@ -43,6 +43,12 @@ type WorldCfg struct {
 	// StrictAbort: an engine abort of a statement in a history without any concurrent transaction is
 	// reported (no other transaction can be the reason).
 	KeyExtra func(w *World) string
+	// OnStmt observes every statement that completed without an engine abort (its transaction, the
+	// statement, the engine's answer).
+	OnStmt func(w *World, txn int, s *Stmt, r StmtResult)
+	// NoModelCompare switches the per-statement comparison with the model off (drivers with an oracle
+	// of their own over whole histories).
+	NoModelCompare bool
 	// Custom handles driver-specific ops; handled=false falls through to the built-in op language.
 	Custom func(w *World, op string) (handled bool, v *core.Violation)
 	// Filter may reclassify a violation (e.g. mark it Ignore when it does not belong to the property).
@@ -233,7 +239,13 @@ func (w *World) runStmt(op string, id int, s *Stmt) *core.Violation {
 		}
 		return nil
 	}
+	if w.cfg.OnStmt != nil {
+		w.cfg.OnStmt(w, id, s, r)
+	}
 	eff := w.model.Apply(id, s)
+	if w.cfg.NoModelCompare {
+		return nil
+	}
 	if eff.Conflict {
 		return w.viol("dirty-write", op, sql+" succeeded although it writes a row with another transaction's uncommitted change")
 	}
